@@ -7,7 +7,7 @@ RULE = ("overflow-checked build (overflow-checks, debug-assertions) and wrapping
         "random index areas with consistent counters, random bytes, random and all-0x3FF public keys, every length around "
         "SIGNBYTES) must all be answered true/false without a panic, identically in both builds; a sample of them is also compared "
         "with the model (whose `ok` means no fault in checked semantics); honest keygen+sign+verify runs in the checked build. "
-        "distinct_nontrivial = distinct requests; evaluations adds the calls made inside the scans. API-level sweeps over message lengths (0..70, around powers of two up to 2^16, around 4096-257) x contexts (none, empty, 1, 255 bytes), verify and sign, under catch_unwind.")
+        "distinct_nontrivial = distinct requests; evaluations adds the calls made inside the scans. API-level sweeps over message lengths (0..70, around powers of two up to 2^16, around 4096-257) x contexts (none, empty, 1, 255 bytes), verify and sign, under catch_unwind. Crafted secret keys (extreme t0: attempts with far more than omega hints) must sign without fault.")
 EXPLANATION = ("Props/C08.lean: the gates that answer false before any arithmetic (length, decoder, norm), nonce budget. The range "
                "analysis of the arithmetic path (`verify_total`) is not finished: partial; totality on the explored inputs is observed "
                "in the overflow-checked build.")
